@@ -101,6 +101,8 @@ def family(rs, n):
     """n lanes of mixed difficulty: returns (f, xmin, xmax, root, kinds)"""
     kinds = rs.choice(len(KINDS), size=n)
     lo = rs.uniform(-50, 50, size=n)
+    # one lane in seven lives far from the origin (roots of magnitude 1e6 .. 1e10 next to roots of magnitude 1): "as if it were alone"
+    lo = lo + np.where(rs.uniform(size=n) < 0.15, rs.choice([-1.0, 1.0], size=n) * 10.0 ** rs.uniform(6, 10, size=n), 0.0)
     w = 10.0 ** rs.uniform(-2, 3, size=n)
     hi = lo + w
     root = lo + w * rs.uniform(0.02, 0.98, size=n)
